@@ -105,8 +105,8 @@ func wodCheck(e *Context, addLine IntType, pool IntType, points IntType, thresho
 		return false
 	}
 
-	if points < 1 {
-		e.Error = errors.New("E7: 非法数值, 面数至少为1")
+	if points < 1 || points >= maxIntType {
+		e.Error = errors.New("E7: 非法数值, 面数至少为1(且不能超过支持的上限)")
 		return false
 	}
 
@@ -220,8 +220,8 @@ func doubleCrossCheck(ctx *Context, addLine, pool, points IntType) bool {
 		return false
 	}
 
-	if points < 1 {
-		ctx.Error = errors.New("E7: 非法数值, 面数至少为1")
+	if points < 1 || points >= maxIntType {
+		ctx.Error = errors.New("E7: 非法数值, 面数至少为1(且不能超过支持的上限)")
 		return false
 	}
 
